@@ -56,6 +56,12 @@ class FnItem:
     def __repr__(self): return f'FnItem({self.callee})'
 
 
+class PyClosure:
+    """a closure supplied by the harness (e.g. the consumer's page-selector function)"""
+    __slots__ = ('fn',)
+    def __init__(self, fn): self.fn = fn
+
+
 class PVec:
     """Vec / slice / array model: Python list of Cells (concrete shape)"""
     def __init__(self, items=None): self.items = items if items is not None else []
@@ -176,6 +182,7 @@ class Executor:
         self.loop_bound = loop_bound
         self.max_paths = max_paths
         self.cur_fn = []
+        self.cur_f = []
         self._clos = None
         self.const_models = []
         self.unsupported_paths = []
@@ -224,6 +231,7 @@ class Executor:
             prefix = work.pop()
             self.prefix, self.trace, self.pc, self.pending = prefix, [], list(base_assumptions), []
             self.cur_fn = []
+            self.cur_f = []
             self.steps = 0
             try:
                 out = ('ok', harness(self))
@@ -338,9 +346,19 @@ class Executor:
                 if d < 0: return False
         return d == 0
 
+    # projecting INTO one of these wrappers yields the same cell (they are only reached through Box / Vec / NonZero internals)
     TRANSPARENT = ('std::ptr::Unique<', 'std::ptr::NonNull<', 'std::mem::ManuallyDrop<', 'std::mem::MaybeDangling<',
-                   'std::mem::MaybeUninit<', 'std::pin::Pin<', 'std::num::NonZero<', 'std::num::niche_types::',
-                   'NonNull<', 'Unique<')
+                   'std::mem::MaybeUninit<', 'std::num::niche_types::', 'NonNull<', 'Unique<')
+    # projecting OUT OF one of these (field .0 of a value of this type) yields the same cell
+    TRANSPARENT_BASE = ('std::num::niche_types::', 'std::pin::Pin<', 'Pin<')
+
+    def base_ty(self, p):
+        if p[0] == 'field': return p[3]
+        if p[0] == 'local' and self.cur_f: return self.cur_f[-1].locals.get(p[1])
+        if p[0] == 'deref':
+            t = self.base_ty(p[1])
+            return re.sub(r"^&('\w+ )?(mut )?", '', t) if t else None
+        return None
 
     def cell_of(self, frame, p):
         k = p[0]
@@ -382,6 +400,9 @@ class Executor:
                 return v.fields[None][0]
             if any(p[3].startswith(t) for t in self.TRANSPARENT) or isinstance(v, Ref) and not p[3].startswith('&'):
                 return base           # Box / Unique / NonNull / MaybeUninit wrappers are transparent
+            bt = self.base_ty(p[1])
+            if bt and any(bt.startswith(t) for t in self.TRANSPARENT_BASE) and not isinstance(v, (Adt, Tup)):
+                return base
             if isinstance(v, Tup): return v.items[p[2]]
             if isinstance(v, Adt):
                 fl = v.fields.setdefault(None, [])
@@ -774,11 +795,13 @@ class Executor:
         self.stats['calls'] += 1
         self.fns_executed.add(name)
         self.cur_fn.append(name)
+        self.cur_f.append(f)
         if len(self.cur_fn) > 200: raise Unsupported('call depth')
         try:
             return self._run(f, frame, name)
         finally:
             self.cur_fn.pop()
+            self.cur_f.pop()
 
     def _run(self, f, frame, name):
         bb = 'bb0'
@@ -921,6 +944,7 @@ class Executor:
         """state merging for a pure function returning bool: explore it in a nested run and return
         the disjunction of (path condition and result) as one term, so the caller forks at most once"""
         saved = (self.prefix, self.trace, self.pc, self.pending, list(self.cur_fn))
+        saved_f = list(self.cur_f)
         outer = list(self.pc)
         results, work = [], [[]]
         try:
@@ -928,6 +952,7 @@ class Executor:
                 prefix = work.pop()
                 self.prefix, self.trace, self.pc, self.pending = prefix, [], list(outer), []
                 self.cur_fn = list(saved[4])
+                self.cur_f = list(saved_f)
                 try:
                     r = self.call_fn(name, args)
                 except Infeasible:
@@ -940,6 +965,7 @@ class Executor:
                     results.append((self.pc[len(outer):], r))
         finally:
             self.prefix, self.trace, self.pc, self.pending, self.cur_fn = saved
+            self.cur_f = saved_f
         terms = [zand(*(list(pc) + [r])) for pc, r in results]
         t = zor(*terms)
         return z3.simplify(t) if is_sym(t) else t
@@ -947,6 +973,7 @@ class Executor:
     def call_closure(self, clo, args):
         clo = dv(clo)
         if isinstance(clo, FnItem): return self.do_call(clo.callee, list(args))
+        if isinstance(clo, PyClosure): return clo.fn(self, *args)
         if not isinstance(clo, Closure): raise Unsupported(f'call of non-closure {clo!r}')
         f = self.fns[clo.fn]
         env = Adt('closure', 0, {None: [Cell(u) for u in clo.upvars]})
